@@ -32,7 +32,6 @@ import (
 	"encoding/base32"
 	"encoding/json"
 	"errors"
-	"fmt"
 	"hash"
 	"net"
 	"os"
@@ -164,7 +163,10 @@ func loadTicketStore(stateDir string) (*ssTicketStore, error) {
 
 	encMap := make(map[string]*ssTicketJSON)
 	if err = json.Unmarshal(f, &encMap); err != nil {
-		return nil, fmt.Errorf("failed to load ticket store '%s': %w", fPath, err)
+		// The store only caches session tickets.  A damaged file (eg: the
+		// process was killed while it was being rewritten) must not keep the
+		// client from starting, the tickets are merely forgotten.
+		return s, nil
 	}
 	for k, v := range encMap {
 		raw, err := base32.StdEncoding.DecodeString(v.KeyTicket)
